@@ -4,6 +4,7 @@
 set -u
 P=$1; M=$2; OUT=${3:-$2}; shift 2; [ $# -gt 0 ] && shift
 WT=/tmp/seed_$P
+R=${SEED_REPO:-/repo}   # tree the checks run against (a scratch worktree keeps /repo untouched)
 S=$WT/SEED
 [ -d "$S" ] || S=$WT/_SEED
 DIFF=$S/$M.diff
@@ -34,21 +35,21 @@ echo "   demo on clean: $([ $clean_rc -ge 1 ] && echo PASS || echo NOT-PASS)   s
 if [ $clean_rc -ge 1 ] && [ $suite_ok = 1 ] && [ $mut_fail -ge 1 ]; then
   D=/verif/seeded/$P-$OUT; mkdir -p $D; cp $DIFF $D/patch.diff; cp $DEMO $D/demo_test.go
   # run the checks against /repo with the change applied, then undo
-  git -C /repo apply $DIFF || { echo "does not apply to /repo"; exit 3; }
+  git -C $R apply $DIFF || { echo "does not apply to $R"; exit 3; }
   res=""
   for Q in $P "$@"; do
-    out=$(cd /verif && env VERIF_SCRATCH_EVIDENCE=1 timeout 900 ./check $Q quick 2>&1); rc=$?
+    out=$(cd /verif && env VERIF_SCRATCH_EVIDENCE=1 VERIF_REPO=$R timeout 900 ./check $Q quick 2>&1); rc=$?
     lab=$(echo "$out" | grep -o "entry=[A-Za-z0-9]* label=[a-zA-Z0-9_-]*" | head -2 | tr '\n' ';')
     echo "   check $Q quick: rc=$rc $lab"
     res="$res $Q:quick:rc=$rc:$lab"
     if [ $rc != 1 ] && [ "${THOROUGH:-0}" = 1 ]; then
-      out=$(cd /verif && env VERIF_SCRATCH_EVIDENCE=1 timeout 3000 ./check $Q thorough 2>&1); rc2=$?
+      out=$(cd /verif && env VERIF_SCRATCH_EVIDENCE=1 VERIF_REPO=$R timeout 3000 ./check $Q thorough 2>&1); rc2=$?
       lab=$(echo "$out" | grep -o "entry=[A-Za-z0-9]* label=[a-zA-Z0-9_-]*" | head -2 | tr '\n' ';')
       echo "   check $Q thorough: rc=$rc2 $lab"; [ $rc2 = 2 ] && echo "$out" | grep "INCONCLUSIVE\|UNCONFIRMED" | cut -c1-300 | head -3
       res="$res $Q:thorough:rc=$rc2:$lab"
     fi
   done
-  git -C /repo checkout -- .
+  git -C $R checkout -- .
   echo "$res" > $D/result.txt
 fi
 mv $WT/_SEED $WT/SEED 2>/dev/null
